@@ -45,9 +45,13 @@ val fold_left : ('a1 -> 'a2 -> 'a1) -> 'a2 list -> 'a1 -> 'a1
 
 val fold_right : ('a2 -> 'a1 -> 'a1) -> 'a1 -> 'a2 list -> 'a1
 
+val forallb : ('a1 -> bool) -> 'a1 list -> bool
+
 val filter : ('a1 -> bool) -> 'a1 list -> 'a1 list
 
 val find : ('a1 -> bool) -> 'a1 list -> 'a1 option
+
+val seq : nat -> nat -> nat list
 
 val repeat : 'a1 -> nat -> 'a1 list
 
@@ -504,3 +508,49 @@ val deser_shapes :
 
 val deserialize :
   'a1 ops -> (n -> 'a1) -> 'a1 arena -> byte list -> 'a1 arena * shape list
+
+type cell = { c_kids : nat list; c_rc : nat; c_alive : bool }
+
+type heap = cell list
+
+val dead : cell
+
+val hget : heap -> nat -> cell
+
+val hset : heap -> nat -> cell -> heap
+
+val inc : heap -> nat -> heap
+
+val dec : heap -> nat -> heap
+
+val alloc : heap -> nat list -> heap * nat
+
+val free : heap -> nat -> heap
+
+val drop_loop : nat -> heap -> nat -> nat list -> heap
+
+val drop : nat -> heap -> nat -> heap
+
+type rop =
+| RAlloc of nat list
+| RCopy of nat
+| RDrop of nat
+
+type rstate = { r_heap : heap; r_handles : nat option list;
+                r_statics : nat list }
+
+val hnd : rstate -> nat -> nat option
+
+val rstep : nat -> rstate -> rop -> rstate
+
+val owned : 'a1 node -> nat list
+
+val mark_pass : nat -> 'a1 arena -> bool list -> bool list
+
+val live_set : 'a1 arena -> nat list -> bool list
+
+val count_occ_nat : nat list -> nat -> nat
+
+val rc_spec : 'a1 arena -> nat list -> nat list -> nat -> nat
+
+val live_count : 'a1 arena -> nat list -> nat list -> nat
